@@ -3,6 +3,7 @@ package pdlab
 import (
 	"fmt"
 	"sort"
+	"strings"
 
 	"github.com/youzan/ZanRedisDB/cluster"
 )
@@ -142,6 +143,9 @@ func (m *monitor) accepted(ns string, pid int, prev, next *cluster.PartitionRepl
 	}
 	replica := meta.Replica
 	viol := func(sig, format string, args ...interface{}) {
+		if !m.in.live && strings.HasPrefix(m.in.curKind, "op_") {
+			sig += "/" + m.in.curKind // the write was issued by an operator API call
+		}
 		s := fmt.Sprintf(format, args...)
 		rec.Notes = append(rec.Notes, sig+": "+s)
 		m.found = append(m.found, mviolation{Sig: sig, Summary: fmt.Sprintf("%s replica=%d: %s", k.String(), replica, s), Write: rec})
